@@ -167,6 +167,19 @@ impl PropCase for RoundTrip {
                 }
             }
         }
+        // ---- embedded-hal source (no end of input: an idle line keeps answering would-block)
+        for (_ename, f) in &distinct {
+            let env = ReaderEnv::from_bytes(f);
+            let rb = if p.len() <= 8192 { RBuf::Default } else { RBuf::Kind(BufKind::Vec) };
+            let mut rd = new_reader(&env, Src::Eh, rb);
+            let api = if h & 4 == 0 { Api::Read } else { Api::NextNb };
+            let first = rd.r.call(api, Target::Bytes);
+            ensure!(first == ROut::Bytes(p.clone()), "R/eh", format!("Bytes({})", hex_short(p)), first.short());
+            ensure!((rd.pulled)() == Some(f.len()), "R/eh", format!("{} bytes pulled", f.len()), format!("{:?}", (rd.pulled)()));
+            let second = rd.r.call(Api::Read, Target::Bytes);
+            ensure!(second == ROut::IoErr(IoKind::WouldBlock, 0), "R/eh", "IoErr(WouldBlock, 0) on an idle line", second.short());
+            ctx.bump("runs:reader-eh");
+        }
         // ---- situation class actually exercised
         let esc = escape_payload(p);
         let ones = payload::trailing_run(p, 0x1b).min(12);
